@@ -22,6 +22,7 @@ func Replay(r *mon.Run, raw json.RawMessage) {
 	// build option muxes before and after the one under test
 	dummy := []RuleSpec{{ID: "dummy", In: "vf.Req", Out: "vf.Rsp", Verb: "GET", Tmpl: "/dummy/{a}"}}
 	buildDynamic(dummy, muxReplaced) //nolint:errcheck
+	buildNeighbourPopulation()
 	if c.Kind == "c04-seq" {
 		e, err = buildDynamic(c.Rules, c.Mux)
 	} else {
@@ -33,6 +34,7 @@ func Replay(r *mon.Run, raw json.RawMessage) {
 	}
 	defer e.close()
 	buildDynamic(dummy, muxCustom) //nolint:errcheck
+	buildNeighbourPopulation()
 	r.Distinct("replay-a")
 	r.Distinct("replay-b")
 	apply(r, &c, execCase(e, &c))
